@@ -377,13 +377,36 @@ def run(prog: Program, rep, thorough: bool) -> None:
     if hs is None:
         raise AnalysisError('Atmo.humidity setter vanished')
     rep.saw(hs)
-    others = [s for s in C.iter_attr_stores(prog) if s.attr == '_humidity' and s.func is not hs]
+    # who stores the field: the setter, the constructor (judged below on the same cases, by evaluation), and helpers that only
+    # those two call (evaluated through); a store anywhere else bypasses the contract
+    init_f = prog.find_method(atmo_c, '__init__')
+    covered = {id(hs), id(init_f)}
+    storers = {id(s.func): s for s in C.iter_attr_stores(prog) if s.attr == '_humidity'}
+    grew = True
+    while grew:
+        grew = False
+        for fid, s_ in storers.items():
+            g = s_.func
+            if fid in covered or g is None or g.cls is None or g.cls.name != atmo_c.name:
+                continue
+            uses = []
+            for m_ in prog.modules.values():
+                for x in ast.walk(m_.tree):
+                    if isinstance(x, ast.Attribute) and x.attr == g.name and isinstance(x.ctx, ast.Load):
+                        uses.append(find_func_for_node(prog, m_, x))
+                    elif isinstance(x, ast.Name) and x.id == g.name and isinstance(x.ctx, ast.Load):
+                        uses.append(find_func_for_node(prog, m_, x))
+            if uses and all(u is not None and id(u) in covered for u in uses):
+                covered.add(fid)
+                grew = True
+    others = [s_ for fid, s_ in storers.items() if fid not in covered]
+    init_stores = id(init_f) in storers or any(fid in covered and fid not in (id(hs),) for fid in storers)
     if others:
         s0 = others[0]
         rep.fail('C08.R3', s0.module.path, s0.node.lineno, s0.func.qualname if s0.func else '<module>', 'humidity-store',
-                 f'_humidity is stored outside the range-checking setter: `{norm(parent(s0.node))[:60]}`')
+                 f'_humidity is stored outside the range-checking setter and the constructor: `{norm(parent(s0.node))[:60]}`')
     else:
-        rep.ok('C08.R3', hs.where, '_humidity is stored only by the setter')
+        rep.ok('C08.R3', hs.where, '_humidity is stored only by the setter' + (', the constructor and their helpers' if init_stores else ''))
     st = State()
     obj = ev.new_inst(st, atmo_c, {'_initializing': Const(True), '_humidity': S('old')})
     try:
@@ -416,6 +439,31 @@ def run(prog: Program, rep, thorough: bool) -> None:
                     got = None
                 if got is None or abs(got - want) > 1e-12:
                     problems.append(f'humidity {x} is stored as {got}, expected the fraction {want}')
+    # the same cases through the constructor, which sets the field on its own or through the setter
+    for x, want in samples.items():
+        evh = Evaluator(prog, hooks=C.pref_hooks(prog), opaque={'calculate_air_density'})
+        sth = State()
+        qh = lambda d_, s_, u_: C.mk_quantity(evh, sth, prog, d_, s_, u_)
+        try:
+            b_ = evh.construct(atmo_c, [qh('Distance', 'a_raw', 'Foot'), qh('Pressure', 'p_raw', 'hPa'), qh('Temperature', 'tC', 'Celsius'),
+                                        Scalar(Fraction(repr(x)))], {}, sth, ctx)
+        except Undecided as exc:
+            raise AnalysisError(f'Atmo(humidity={x}): {exc}') from exc
+        outs = [o for _p, o in cond_leaves(b_)]
+        for o in outs:
+            if isinstance(o, Raised):
+                if want != 'raise':
+                    problems.append(f'Atmo(humidity={x}) is rejected')
+                continue
+            if not isinstance(o, Inst):
+                raise AnalysisError(f'Atmo(humidity={x}) evaluates to {o!r}')
+            if want == 'raise':
+                problems.append(f'Atmo(humidity={x}) is accepted')
+                continue
+            v = sth.heap[o.oid].get('_humidity')
+            got = float(v.rf.const_value()) if isinstance(v, Scalar) and v.rf.is_const() else None
+            if got is None or abs(got - want) > 1e-12:
+                problems.append(f'Atmo(humidity={x}) stores {got if got is not None else v!r}, expected the fraction {want}')
     if problems:
         rep.fail('C08.R3', cond.path, hs.node.lineno, hs.qualname, 'humidity-cases', '; '.join(sorted(set(problems))[:3]))
     else:
